@@ -91,6 +91,7 @@ func run(c *core.Case, st *core.CaseStats, seed int64) {
 		var got []byte
 		var gotS string
 		if guard(k+"Format", in, func() { got = cd.format(input); gotS = cd.formatS(string(input)) }) {
+			core.Retain(st, c, k+"FormatToString", in, gotS)
 			if !bytes.Equal(got, want) || gotS != string(want) {
 				rep(k+"Format", "value", in, string(want), []string{string(got), gotS})
 			}
@@ -128,6 +129,8 @@ func run(c *core.Case, st *core.CaseStats, seed int64) {
 			return
 		}
 		out := dst[:n]
+		core.Retain(st, c, k+"ParseToString", in, s1)
+		core.Retain(st, c, k+"ParseToString", in, s2)
 		if s1 != string(out) || s2 != string(out) {
 			rep(k+"ParseToString", "value", in, string(out), []string{s1, s2})
 		}
